@@ -348,6 +348,45 @@ def run(chk):
     if direct_sites < 60:
         raise AnalysisBroken("C13 R13.2: only %d guarded-field access sites found (expected > 60)" % direct_sites)
 
+    # ------------------------------------------------------------------ R13.6 published overload lists are immutable
+    r6 = chk.rule("R13.6", "an overload list reachable through the shared_ptr stored in the function table is never modified in place (readers iterate it after releasing the lock)",
+                  "threads calling a function while another thread adds an overload of the same name see a consistent list; saved states are not changed by later registrations")
+    nreach = 0
+    for f in cand:
+        pr = PathResolver(prog, f)
+        flow = None
+        for n in walk(f["body"]):
+            if n.get("k") not in ("member", "call", "ref"):
+                continue
+            if n.get("k") == "ref" and n.get("rk") not in ("local", "binding"):
+                continue
+            p = pr.path(n)
+            if not published_list(p):
+                continue
+            if flow is None:
+                flow = FnFlow(f)
+            par = flow.parent(n)
+            if par is not None and par.get("k") == "member" and strip_casts(par.get("base")) is n:
+                continue
+            if par is not None and par.get("k") == "call" and par.get("obj") is n and published_list(pr.path(par)):
+                continue
+            nreach += 1
+            kind = classify_use(prog, f, flow, n)
+            # begin()/end() handed to a mutating algorithm
+            if kind == "read" and par is not None and par.get("k") == "call" and par.get("name") in ("begin", "end"):
+                gp = flow.parent(par)
+                while gp is not None and gp.get("k") in ("cast", "construct"):
+                    gp = flow.parent(gp)
+                if gp is not None and gp.get("k") == "call" and gp.get("name") in ("sort", "stable_sort", "reverse", "rotate", "remove_if", "unique", "swap_ranges", "fill", "shuffle"):
+                    kind = "write"
+            if kind == "write":
+                r6.ob("%s modifies a published overload list in place" % strip_targs(f["q"]), False, "%s:%d" % (f["file"], n["l"]), f["q"],
+                      "the vector reached through the function table's shared_ptr is changed (%s) while readers that copied the shared_ptr under the lock iterate it without the lock; "
+                      "saved State snapshots share it too" % expr_str(prog, f, par if par is not None else n)[:60])
+    r6.ob("all %d accesses to published overload lists are reads; add_function copies, edits the copy and publishes a new list" % nreach, True, "", "", "")
+    if nreach < 2:
+        raise AnalysisBroken("C13 R13.6: only %d accesses to published overload lists found" % nreach)
+
     # ------------------------------------------------------------------ R13.3 locks held across calls
     r3 = chk.rule("R13.3", "no non-recursive mutex is held across a call that can re-acquire it on the same object or reach user code",
                   "no self-deadlock; user callbacks never run under an engine lock they might need")
@@ -440,6 +479,21 @@ def run(chk):
                         bad.append("%s:%d" % (f["file"], n["l"]))
         r5.ob("%s is not written after construction" % fieldq, not bad, bad[0] if bad else "", cls, "written at %s" % bad)
     r5.require(5, "obligations")
+
+
+def published_list(path):
+    """path goes through State::m_functions, then into an element's `second` shared_ptr, then dereferences it"""
+    if not path:
+        return False
+    seen_tab = seen_second = False
+    for s_ in path:
+        if s_[0] == "field" and s_[1].endswith("::State::m_functions"):
+            seen_tab = True
+        elif seen_tab and s_[0] == "field" and s_[2] == "second":
+            seen_second = True
+        elif seen_second and s_[0] == "deref":
+            return True
+    return False
 
 
 def is_this_call(node):
